@@ -220,7 +220,11 @@ def r6_move_text(ctx):
                 arr = [a["pl"]["l"] if a.get("k") in ("copy", "move") else None for a in s["rv"]["a"]]
     seq = [dict(order).get(l, "?") for l in arr] if arr else []
     ok = seq == ["source", "target", "promote_to"]
-    ctx.ob(rid, "display-order", ok, "" if ok else "UciMove is written as %s, FromStr reads source, target, promotion" % seq, ctx.where(g), sample={"written": seq})
+    if not seq or "?" in seq:
+        # Display does not format the three fields through one `write!` argument array (it writes piece by piece)
+        ctx.lost(rid, "the order in which UciMove's Display writes its fields")
+    else:
+      ctx.ob(rid, "display-order", ok, "" if ok else "UciMove is written as %s, FromStr reads source, target, promotion" % seq, ctx.where(g), sample={"written": seq})
     h = ctx.fn(rid, "inkayaku_uci::uci::<UciMove as FromStr>::from_str")
     hcfg, hex_ = Cfg(h), Exprs(h)
     # the Ok aggregate's fields come from the first / second Square::from_chars call and from Piece::from_char
